@@ -362,6 +362,7 @@ func VerifC11Step(mode int, variant int, nleases int) {
 		verifAssert(y != verifHostIP, "C11:never-our-own-address")
 		verifAssert(y != verifRouterIP, "C11:never-the-router-address")
 		verifAssert(sub.LAN.Contains(y), "C11:address-inside-the-clients-subnet")
+		verifAssert(sub.LAN.Contains(y), "C12:address-inside-the-subnet-of-the-capture-state") // the same fact is part of both statements
 		verifAssert(y != sub.LAN.Addr() && y != sub.broadcast, "C11:never-network-or-broadcast-address")
 		for _, o := range recs {
 			if o.state == StateAllocated && !o.expired && verifBytesDiff(o.cid, req.cid) != 0 {
